@@ -124,20 +124,33 @@ def coordsys_of(name):
 # fake chunked image driven by a TLC chunk grid
 # ------------------------------------------------------------------------------------------------------------
 
-def map_data(W, H):
+def map_data(W, H, kind="rgb"):
+    """A map in which every pixel is identifiable: rgb = (row % 256, col % 256, 77 + 16 * (row // 256) + (col // 256));
+    kind "f32": unique float32 values salted with the special values a float map may legally hold - +-inf, +-0.0,
+    the extreme magnitudes - and NaN, the only "undefined"."""
     import numpy as np
+    if kind == "f32":
+        d = (1.0 + np.arange(W * H, dtype=np.float64).reshape((H, W))).astype(np.float32)
+        flat = d.reshape(-1)
+        specials = np.array([np.inf, -np.inf, 0.0, -0.0, np.finfo(np.float32).max, -np.finfo(np.float32).max,
+                             np.finfo(np.float32).tiny, 1e-45, np.nan], dtype=np.float32)
+        idx = (np.arange(flat.size) * 7919) % 13 == 0
+        flat[idx] = specials[np.arange(int(idx.sum())) % specials.size]
+        return d
     d = np.empty((H, W, 3), dtype=np.uint8)
-    d[..., 0] = np.arange(H).reshape((-1, 1))
-    d[..., 1] = np.arange(W).reshape((1, -1))
-    d[..., 2] = 77
+    rows = np.arange(H).reshape((-1, 1))
+    cols = np.arange(W).reshape((1, -1))
+    d[..., 0] = rows % 256
+    d[..., 1] = cols % 256
+    d[..., 2] = 77 + 16 * (rows // 256) + (cols // 256)
     return d
 
 
 class FakeChunked(object):
-    def __init__(self, W, H, specs):
-        self.shape = (H, W, 3)
+    def __init__(self, W, H, specs, kind="rgb"):
         self._specs = [tuple(s) for s in specs]
-        self._data = map_data(W, H)
+        self._data = map_data(W, H, kind)
+        self.shape = self._data.shape
 
     @property
     def n_chunks(self):
@@ -277,6 +290,23 @@ def real_tiles_task(args):
 # worker: (b) one image footprint - recorded sample sets + directed witness search
 # ------------------------------------------------------------------------------------------------------------
 
+def salt_specials(data, rng, frac=0.06):
+    """Float source pixels a caller may legally have: +-inf, +-0.0, the extreme magnitudes; NaN is the only "undefined"."""
+    import numpy as np
+    specials = np.array([np.inf, -np.inf, 0.0, -0.0, np.finfo(np.float32).max, -np.finfo(np.float32).max,
+                         np.finfo(np.float32).tiny, 1e-45, np.nan, np.nan, np.nan], dtype=np.float32)
+    m = rng.uniform(size=data.shape) < frac
+    data[m] = specials[rng.integers(0, specials.size, size=int(m.sum()))]
+    return data
+
+
+def same_bits(a, b):
+    """Element-wise: same float32 value including the sign of zero and the sign of infinity; NaN equals NaN."""
+    import numpy as np
+    a32, b32 = np.asarray(a, dtype=np.float32), np.asarray(b, dtype=np.float32)
+    return (a32.view(np.uint32) == b32.view(np.uint32)) | (np.isnan(a32) & np.isnan(b32))
+
+
 class RecordingWCS(object):
     """Stands in for the WCS inside WcsSampler: records what wcs_pix2world is asked, forwards everything."""
 
@@ -377,7 +407,10 @@ class Footprint(object):
         self.pix = math.radians(d["scale"])
         self.w = make_wcs(d)
         self.rec = RecordingWCS(self.w)
-        self.ws = WcsSampler(np.ones((self.ny, self.nx), dtype=np.float32), self.rec)
+        data = np.ones((self.ny, self.nx), dtype=np.float32)          # no NaN: every image pixel is data; some are +-inf / +-0.0
+        flat = data.reshape(-1)
+        flat[::5] = np.array([np.inf, -np.inf, 0.0, -0.0, 3e38], dtype=np.float32)[np.arange(flat[::5].size) % 5]
+        self.ws = WcsSampler(data, self.rec)
         self.error = None
         self.f = None
         try:
@@ -455,7 +488,7 @@ class Footprint(object):
         import numpy as np
         from toasty import toast
         tlon, tlat = toast.toast_tile_get_coords(tile)
-        fin = np.isfinite(self.sampler(tlon, tlat))
+        fin = ~np.isnan(self.sampler(tlon, tlat))
         if not fin.any():
             return 0, 0
         px = np.asarray(self.w.wcs_world2pix(np.degrees(tlon[fin]), np.degrees(tlat[fin]), 1))
@@ -622,8 +655,7 @@ def wcs_layer_task(d):
     res = {"id": d["id"], "viol": [], "mut": [], "tiles": 0, "finite_pixels": 0, "filtered_tiles": 0, "error": None}
     rng = np.random.default_rng(d["seed"])
     nx, ny = d["nx"], d["ny"]
-    data = rng.uniform(1.0, 2.0, size=(ny, nx)).astype(np.float32)
-    data[rng.uniform(size=(ny, nx)) < 0.05] = np.nan            # masked pixels inside the image
+    data = salt_specials(rng.uniform(1.0, 2.0, size=(ny, nx)).astype(np.float32), rng)   # incl. NaN = masked pixels inside the image
     w = make_wcs(d)
     ws = WcsSampler(data, w)
     cs = coordsys_of(d["coordsys"])
@@ -642,15 +674,14 @@ def wcs_layer_task(d):
         b = None if ib is None else np.asarray(ib.asarray(), dtype=np.float64)
         if b is not None:
             res["filtered_tiles"] += 1
-        fa = np.zeros((256, 256), bool) if a is None else np.isfinite(a)
-        fb = np.zeros((256, 256), bool) if b is None else np.isfinite(b)
+        # "defined" = not NaN (an infinite or zero pixel is data); values compared bit for bit
+        fa = np.zeros((256, 256), bool) if a is None else ~np.isnan(a)
+        fb = np.zeros((256, 256), bool) if b is None else ~np.isnan(b)
         res["finite_pixels"] += int(fa.sum())
-        bad = fa & ~fb
         if a is not None and b is not None:
-            both = fa & fb
-            bad = bad | (both & (np.where(both, a, 0) != np.where(both, b, 0))) | (fb & ~fa)
-        elif a is None and b is not None:
-            bad = fb
+            bad = ~same_bits(a, b)
+        else:
+            bad = fa | fb
         if bad.any():
             iy, ix = np.argwhere(bad)[0]
             res["viol"].append({"tile": tuple(pos), "pixels": int(bad.sum()), "first": [int(iy), int(ix)],
@@ -707,8 +738,8 @@ def chunk_layer_task(d):
             b = np.asarray(ib.asarray())
             hole = (b[..., 3] != 255) if b.shape[-1] == 4 else np.zeros(clear.shape, bool)
             differs = np.any(b[..., :3] != a, axis=-1)
-            notmap = (b[..., 0] != row) | (b[..., 1] != col)
-            bad = clear & (hole | differs | notmap)
+            notmap = (b[..., 0] != row % 256) | (b[..., 1] != col % 256)
+            bad = hole | differs | (clear & notmap)       # equality with whole-map sampling holds for EVERY pixel
             # a pixel centre ON a cell boundary may take the value of either adjacent map pixel, but "fills every
             # pixel" still applies to it: it must not be left without data
             dc = np.abs(b[..., 1].astype(int) - col)
@@ -872,6 +903,60 @@ def chunk_edge_task(d):
     return res
 
 
+_TILE_COORDS = {}
+
+
+def _tile_coords(csname, depth):
+    from toasty import toast
+    key = (csname, depth)
+    if key not in _TILE_COORDS:
+        _TILE_COORDS[key] = [(tuple(t.pos),) + tuple(toast.toast_tile_get_coords(t))
+                             for t in toast.generate_tiles(depth, bottom_only=True, coordsys=coordsys_of(csname))]
+    return _TILE_COORDS[key]
+
+
+def chunk_sampler_task(d):
+    """(d) at sampler level, for many map sizes: the real chunk samplers of all chunks, applied one after another to the
+    pixel centres of every tile of a level, must fill every pixel with exactly the value the real whole-map sampler gives
+    (bit for bit; NaN where the map pixel is NaN)."""
+    import numpy as np
+    from toasty.samplers import ChunkedPlateCarreeSampler, plate_carree_planet_sampler
+    res = {"viol": [], "pixels": 0, "calls": 0, "cases": 0}
+    for W, H, specs, kind in d["maps"]:
+        img = FakeChunked(W, H, specs, kind)
+        chunker = ChunkedPlateCarreeSampler(img, planetary=True)
+        whole = plate_carree_planet_sampler(img._data)
+        samplers = [chunker.sampler(i) for i in range(chunker.n_chunks)]
+        for csname in d["coordsys"]:
+            res["cases"] += 1
+            for pos, lon, lat in _tile_coords(csname, d["depth"]):
+                exp = np.asarray(whole(lon, lat))
+                if kind == "f32":
+                    got = np.full(exp.shape, np.nan, dtype=np.float32)
+                    for sm in samplers:
+                        out = np.array(sm(lon, lat))
+                        res["calls"] += 1
+                        m = ~np.isnan(out)
+                        got[m] = out[m]
+                    bad = exp.astype(np.float32).view(np.uint32) != got.view(np.uint32)
+                    bad &= ~(np.isnan(exp) & np.isnan(got))
+                else:
+                    got = np.zeros(exp.shape[:2] + (4,), dtype=np.uint8)
+                    for sm in samplers:
+                        out = np.array(sm(lon, lat))
+                        res["calls"] += 1
+                        m = out[..., 3] == 255
+                        got[m] = out[m]
+                    bad = (got[..., 3] != 255) | np.any(got[..., :3] != exp[..., :3], axis=-1)
+                res["pixels"] += bad.size
+                if bad.any() and len(res["viol"]) < 4:
+                    iy, ix = np.argwhere(bad)[0]
+                    res["viol"].append({"map": [W, H], "chunks": len(specs), "values": kind, "coordsys": csname, "tile": pos, "pixels": int(bad.sum()),
+                                        "first": [int(iy), int(ix)], "lonlat_deg": [float(np.degrees(lon[iy, ix])), float(np.degrees(lat[iy, ix]))],
+                                        "whole_map": np.asarray(exp[iy, ix]).tolist(), "chunked": np.asarray(got[iy, ix]).tolist()})
+    return res
+
+
 def _dispatch(task):
     kind, arg = task
     try:
@@ -887,6 +972,8 @@ def _dispatch(task):
             return kind, fits_tiler_task(arg)
         if kind == "cedge":
             return kind, chunk_edge_task(arg)
+        if kind == "csamp":
+            return kind, chunk_sampler_task(arg)
     except Exception as e:  # noqa
         import traceback
         tb = traceback.extract_tb(e.__traceback__)
@@ -1238,7 +1325,7 @@ def _run(ctx, pool, scratch, quick, rng):
     # ---------------------------------------------------------------- inputs
     fps = gen_footprints(rng, quick)
     lengths = sorted(set([d["nx"] for d in fps] + [d["ny"] for d in fps]))
-    boxes = gen_boxes(rng, 400 if quick else 4000)
+    boxes = gen_boxes(rng, 300 if quick else 4000)
     wl_cases = [
         {"nx": 40, "ny": 32, "scale": 1.3, "theta": 0.5, "parity": 1, "ra": 2.0, "dec": 12.0, "crpix": [20.5, 16.5], "depth": 3, "coordsys": "astronomical", "grid": "smaller", "grid_delta": (14, 11)},
         {"nx": 36, "ny": 50, "scale": 0.8, "theta": 2.2, "parity": -1, "ra": 181.0, "dec": -35.0, "crpix": [15.0, 30.0], "depth": 2, "coordsys": "planetary", "route": "builder", "grid": "header-larger", "grid_delta": (5, 9)},
@@ -1272,13 +1359,24 @@ def _run(ctx, pool, scratch, quick, rng):
              for tw in range(1, w + 1) for th in range(1, h + 1)]
     # (configuration, depth, coordinate system, reverse chunk order, route); (16, 8, 14, 8) has a seam on the lon = 135 deg
     # meridian, which passes through TOAST pixel centres
-    sampled = [((15, 7, 6, 3), 2, "planetary", False, "builder"), ((16, 8, 8, 8), 3, "astronomical", False, "direct"),
+    sampled = [((24, 11, 9, 4), 2, "planetary", False, "builder"), ((16, 8, 8, 8), 3, "astronomical", False, "direct"),
                ((16, 8, 14, 8), 2, "planetary", False, "direct"), ((9, 5, 4, 2), 1, "astronomical", True, "builder-coordsys")]
     if not quick:
         sampled += [((37, 19, 10, 7), 3, "planetary", False, "builder"), ((24, 12, 8, 12), 4, "planetary", False, "direct"),
                     ((21, 11, 8, 4), 3, "astronomical", True, "builder"), ((15, 7, 15, 3), 3, "planetary", False, "builder-coordsys"),
                     ((64, 4, 24, 4), 2, "astronomical", False, "direct"), ((48, 6, 18, 3), 2, "planetary", False, "builder"), ((21, 11, 8, 4), 2, "planetary", False, "direct")]
     chunk_cfgs = sorted(set(small) | set(s[0] for s in sampled))
+    # many map sizes for the sampler-level comparison (chunk grid from TLC, per-axis partition theorem)
+    if quick:
+        wh = [(24, 12), (40, 20), (48, 20), (64, 32), (96, 48), (136, 68), (192, 90), (360, 180), (600, 300), (1000, 500)]
+    else:
+        wh = [(w, w // 2) for w in range(8, 201, 8)] + [(w, max(3, w // 2 + rng.choice([-3, -1, 1, 5]))) for w in range(8, 201, 16)]
+        wh += [(384, 192), (600, 300), (768, 384), (1000, 500), (1200, 600), (512, 256), (720, 360)]
+    big_cfgs = []
+    for k, (w, h) in enumerate(wh):
+        tw, th = [(w // 3 + 1, h // 2 + 1), (w // 2 + 3, h), ((w + 3) // 4, (h + 2) // 3)][k % 3]
+        big_cfgs.append((w, h, min(tw, w), min(th, h)))
+    big_cfgs = sorted(set(big_cfgs))
     G = 4
     # ---------------------------------------------------------------- work that needs nothing from TLC starts now
     pending = []
@@ -1295,10 +1393,11 @@ def _run(ctx, pool, scratch, quick, rng):
     def tlc_chunks():
         return ctx.tlc("MCChunks", extra={"MCChunks.tla": tla.module("MCChunks", ["Chunks", "Json"], [
             ("MCConfigs", tla.lit(set(chunk_cfgs))),
-            'Emit == i = -2 => PrintT(<<"C", ToJson([cf |-> c, n |-> NChunks(c), specs |-> [k \\in 1..NChunks(c) |-> ChunkSpec(c, k - 1)], '
+            ("MCBigConfigs", tla.lit(set(big_cfgs))),
+            'Emit == i \\in {-2, -3} => PrintT(<<"C", ToJson([cf |-> c, n |-> NChunks(c), specs |-> [k \\in 1..NChunks(c) |-> ChunkSpec(c, k - 1)], '
             'bounds |-> [k \\in 1..NChunks(c) |-> BoundsPi(c, k - 1)]])>>)'])},
-            cfg_text="SPECIFICATION Spec\nCONSTANTS\n Configs <- MCConfigs\nINVARIANT Partition\nINVARIANT ChunkShape\nINVARIANT BoxIsChunk\n"
-                     "INVARIANT SamplerIsChunk\nINVARIANT NoHoles\nINVARIANT SeamsCovered\nINVARIANT SeamIsLocalTie\nINVARIANT Emit\nCHECK_DEADLOCK FALSE\n", workers=6, timeout=3000)
+            cfg_text="SPECIFICATION Spec\nCONSTANTS\n Configs <- MCConfigs\n BigConfigs <- MCBigConfigs\nINVARIANT Partition\nINVARIANT ChunkShape\nINVARIANT BoxIsChunk\n"
+                     "INVARIANT SamplerIsChunk\nINVARIANT NoHoles\nINVARIANT GridByAxes\nINVARIANT SeamsCovered\nINVARIANT SeamIsLocalTie\nINVARIANT Emit\nCHECK_DEADLOCK FALSE\n", workers=6, timeout=3000)
 
     def tlc_bbox(g, extra_inv):
         text, lb = bbox_module(g)
@@ -1319,8 +1418,13 @@ def _run(ctx, pool, scratch, quick, rng):
     # ---------------------------------------------------------------- (c) chunk grids -> real tiles and layers
     rch = fut_ch.result()
     crecs = {tuple(r["cf"]): r for r in rch.json_lines("C")}
-    if len(crecs) != len(chunk_cfgs):
-        ctx.machinery("TLC emitted %d chunk grids for %d configurations" % (len(crecs), len(chunk_cfgs)))
+    if len(crecs) != len(set(chunk_cfgs) | set(big_cfgs)):
+        ctx.machinery("TLC emitted %d chunk grids for %d configurations" % (len(crecs), len(set(chunk_cfgs) | set(big_cfgs))))
+    maps = [(cf[0], cf[1], [tuple(sp) for sp in crecs[cf]["specs"]], "f32" if k % 2 else "rgb") for k, cf in enumerate(big_cfgs)]
+    nsplit = 4 if quick else 8
+    for k in range(nsplit):
+        if maps[k::nsplit]:
+            pending.append(pool.apply_async(_dispatch, (("csamp", {"maps": maps[k::nsplit], "coordsys": ["planetary", "astronomical"], "depth": 1 if quick else 2}),)))
     chunk_regions = []
     for cf, depth, csname, rev, route in sampled:
         r = crecs[cf]
@@ -1377,7 +1481,7 @@ def _run(ctx, pool, scratch, quick, rng):
             crashes.append(r)
             continue
         if kind == "raised":        # the code under test raised while building / applying a filter or sampling with it
-            _violation(ctx, "C07:%s:raises" % {"real": "box-or-chunk-filter", "foot": "wcs-filter", "wlayer": "sample-layer-filtered", "clayer": "chunked-sampling", "ftiler": "fits-tiler", "cedge": "box-or-chunk-filter"}[r["kind"]],
+            _violation(ctx, "C07:%s:raises" % {"real": "box-or-chunk-filter", "foot": "wcs-filter", "wlayer": "sample-layer-filtered", "clayer": "chunked-sampling", "ftiler": "fits-tiler", "cedge": "box-or-chunk-filter", "csamp": "chunked-sampling"}[r["kind"]],
                           "toasty raised %s in %s while a filter was built / applied / sampled through (%s task)" % (r["error"], r["where"], r["kind"]), r)
             continue
         for m in r.get("mut", []):
@@ -1405,6 +1509,14 @@ def _run(ctx, pool, scratch, quick, rng):
             for v in r["viol"]:
                 _violation(ctx, "C07:sample-layer-filtered:differs", "filtered sampling (route %s, %s) with the image's own filter differs from sample_layer in tile %s: %d pixels, e.g. %s unfiltered %r filtered %r (filter verdicts on the path %s)"
                               % (wl_cases[r["id"]].get("route", "direct"), wl_cases[r["id"]]["coordsys"], v["tile"], v["pixels"], v["first"], v["unfiltered"], v["filtered"], v["filter_verdicts_on_path"]), {"case": {k: x for k, x in wl_cases[r["id"]].items() if k != "scratch"}, "detail": v})
+        elif kind == "csamp":
+            ctx.count(r["calls"])
+            ctx.add_note("chunk_sampler_level_pixels_compared", r["pixels"])
+            ctx.add_note("chunk_sampler_level_map_sizes_x_coordsys", r["cases"])
+            for v in r["viol"]:
+                _violation(ctx, "C07:chunked-sampling:differs", "map %dx%d (%s values, %d chunks, %s): the chunk samplers applied one after another give tile %s %d pixels that differ from whole-map sampling, "
+                           "e.g. pixel %s at lon/lat %s deg: whole map %s, chunked %s" % (v["map"][0], v["map"][1], v["values"], v["chunks"], v["coordsys"], v["tile"], v["pixels"], v["first"],
+                                                                                      [round(x, 9) for x in v["lonlat_deg"]], v["whole_map"], v["chunked"]), v)
         elif kind == "cedge":
             ctx.count(r["calls"])
             ctx.add_note("chunk_edge_tiles_examined", r["tiles_seen"])
@@ -1486,5 +1598,5 @@ def _run(ctx, pool, scratch, quick, rng):
     ctx.assume("footprint monitor domain: levels at which a tile spans >= %g image pixels (tile pixels at most 4x finer than image pixels, the regime "
                "_image_bounds is written for); a witness pixel must lie >= %.2f px inside the image; footprints keep (pixel size)*tan(latitude) <= 0.02 and an "
                "enclosed pole >= 20 px from every edge, so that the bend of an edge between two 1-px samples is far below that tolerance" % (MIN_TILE_PX, TAU))
-    ctx.assume("chunked sampling: pixel centres within 1e-6 cell of a map-cell boundary are excluded (whole-map and per-chunk arithmetic may round them differently)")
+    ctx.assume("chunked sampling is compared with the real whole-map sampler bit for bit on every pixel (C07 states equality, no tolerance); only the comparison with the map pixel the harness itself computes from lon/lat skips pixel centres within 1e-6 cell of a cell boundary")
     ctx.assume("the compiled toasty._libtoasty is what runs (Cython absent: a .pyx edit cannot be exercised); _latlon_tile_filter / _image_bounds / _chunk_bounds are reached as private helpers for conformance only")
